@@ -560,8 +560,14 @@ func (l *Logger) rotateFileLocked() {
 	// Close current file
 	l.currentFile.Close()
 
-	// Rename with timestamp
-	rotatedPath := fmt.Sprintf("%s.%s", l.filePath, time.Now().Format("20060102-150405"))
+	// Rename with timestamp. The name has a resolution of one second: never rename onto
+	// a rotated file that is already there (a second rotation within the same second, or a
+	// restarted logger rotating in that second, would silently replace it)
+	stamped := fmt.Sprintf("%s.%s", l.filePath, time.Now().Format("20060102-150405"))
+	rotatedPath := stamped
+	for n := 1; rotatedFileExists(rotatedPath); n++ {
+		rotatedPath = fmt.Sprintf("%s.%d", stamped, n)
+	}
 	os.Rename(l.filePath, rotatedPath)
 
 	// Compress if enabled
@@ -579,6 +585,15 @@ func (l *Logger) rotateFileLocked() {
 	l.currentFile = f
 	l.writer = f
 	l.currentSize = 0
+}
+
+// rotatedFileExists reports whether a rotated file of that name is on disk, compressed or not
+func rotatedFileExists(path string) bool {
+	if _, err := os.Stat(path); err == nil {
+		return true
+	}
+	_, err := os.Stat(path + ".gz")
+	return err == nil
 }
 
 // compressFile compresses a rotated log file
